@@ -82,18 +82,17 @@ func PlanSeries(scripts []*parser.Script, labelNames []string) (shared.SQLReques
 		planner = &AllTimeSeriesSelectPlanner{}
 	} else {
 		fpPlanners := streamSelectorPlanners(scripts)
-		planners := make([]shared.SQLRequestPlanner, len(fpPlanners))
-		for i, fpPlanner := range fpPlanners {
-			planners[i] = &TimeSeriesSelectPlanner{
-				Fp:        fpPlanner,
-				Selectors: scripts[i].Selectors,
+		if len(fpPlanners) == 1 {
+			planner = &TimeSeriesSelectPlanner{
+				Fp:        fpPlanners[0],
+				Selectors: scripts[0].Selectors,
 			}
-		}
-		if len(planners) == 1 {
-			planner = planners[0]
 		} else {
-			planner = &UnionAllPlanner{Mains: planners}
-			planner = &TimeSeriesDistinctPlanner{Main: planner}
+			// one request over the union of the fingerprints of every matcher (as LabelNames does):
+			// a UNION ALL of requests that each bring their own "WITH fp" keeps the first "fp" only
+			planner = &TimeSeriesSelectPlanner{
+				Fp: &UnionAllPlanner{Mains: fpPlanners},
+			}
 		}
 	}
 	if len(labelNames) > 0 {
